@@ -204,6 +204,7 @@ class Tr:
 
     def function(self, name, args, node):
         fn = self.funs[name]
+        if fn.decorator_list: reject(fn, "decorated function (a decorator may change what the call returns)")
         params = [a.arg for a in fn.args.args]
         if fn.args.vararg or fn.args.kwarg or fn.args.kwonlyargs or fn.args.defaults:
             reject(fn, "only plain positional parameters accepted")
